@@ -1,48 +1,12 @@
-//! fuzzdbg <sel> <file>: decode one fuzz input of the `hist` target and run it, with timings
-use proptest::strategy::{Strategy, ValueTree};
-use proptest::test_runner::{Config, RngAlgorithm, TestRng, TestRunner};
-use proptest::prelude::RngCore;
-use vharness::driver::{Property, Tier};
+//! fuzzdbg <sel> <file>: decode one input of the `hist` fuzz target (property selected by <sel>,
+//! as $VERIF_HIST_SEL does for the fuzzer) and run it, printing the verdict and the time taken.
 fn main() {
     let a: Vec<String> = std::env::args().collect();
-    if a[1] == "c07x" {
-        println!("{:?}", vharness::props::simprops::c07_after_expired_session(2, 0, 2).map(|f| f.sig));
-        return;
+    if a.len() < 3 {
+        eprintln!("usage: fuzzdbg <sel> <file>");
+        std::process::exit(2);
     }
     let data = std::fs::read(&a[2]).unwrap();
-    if a.len() > 3 {
-        let n: usize = a[3].parse().unwrap();
-        let buf: Vec<u8> = (0..n).map(|i| (i * 37 + 11) as u8).collect();
-        let rng = TestRng::from_seed(RngAlgorithm::PassThrough, &buf);
-        let mut runner = TestRunner::new_with_rng(Config::default(), rng);
-        println!("first draw {:x}", runner.rng().next_u64());
-        let s = (0u8..3, 0u8..3, 0u8..3);
-        let t = s.new_tree(&mut runner).unwrap().current();
-        println!("{t:?}");
-        {
-            use vharness::sim::*;
-            let base = proptest::strategy::Just(Scenario { receive_max: None, max_packet_size: None, id_offset: 0, prologue: 0, events: vec![] }).boxed();
-            let t = vharness::props::simprops::crowd(base).new_tree(&mut runner).unwrap().current();
-            println!("crowd ok {} events; next draw {:x}", t.events.len(), runner.rng().next_u64());
-            let t = vharness::props::simprops::sel().new_tree(&mut runner).unwrap().current();
-            println!("sel ok {t}; next draw {:x}", runner.rng().next_u64());
-            for k in 0..5 {
-                let t = (1usize..60).new_tree(&mut runner).unwrap().current();
-                println!("usize range draw {k}: {t}; next draw {:x}", runner.rng().next_u64());
-            }
-            let t = proptest::collection::vec(proptest::strategy::Just(1u8), 1..60).new_tree(&mut runner).unwrap().current();
-            println!("vec of just ok {}; next draw {:x}", t.len(), runner.rng().next_u64());
-            let t = proptest::collection::vec(vharness::props::simprops::sel(), 1..60).new_tree(&mut runner).unwrap().current();
-            println!("vec ok {}; next draw {:x}", t.len(), runner.rng().next_u64());
-            let t = vharness::props::common::prologue_variant().new_tree(&mut runner).unwrap().current();
-            println!("prologue ok {t}; next draw {:x}", runner.rng().next_u64());
-        }
-        let s = vharness::props::simprops::C05::strategy(Tier::Quick);
-        println!("strategy built");
-        let t = s.new_tree(&mut runner).unwrap().current();
-        println!("{} events; next draw {:x}", t.events.len(), runner.rng().next_u64());
-        return;
-    }
     std::env::set_var("VERIF_HIST_SEL", &a[1]);
     let t = std::time::Instant::now();
     let r = vharness::fuzzing::fuzz_hist(&data);
